@@ -112,16 +112,17 @@ type outcome struct {
 }
 
 type caller struct {
-	id      int
-	g       int // call number (mirrors gen[c] of the spec)
-	state   string
-	rx      transport.ReservedExchanger
-	cancel  context.CancelFunc
-	done    chan outcome
-	msgID   uint16
-	qname   string
-	wrote   bool // first Write of the current call seen
-	written bool // first Write returned
+	id        int
+	g         int // call number (mirrors gen[c] of the spec)
+	state     string
+	rx        transport.ReservedExchanger
+	cancel    context.CancelFunc
+	done      chan outcome
+	msgID     uint16
+	qname     string
+	wrote     bool // first Write of the current call seen
+	written   bool // first Write returned
+	cancelled bool
 }
 
 type send struct {
@@ -134,17 +135,17 @@ type send struct {
 }
 
 type run struct {
-	sc      *Script
-	rec     *simnet.Recorder
-	conn    *simnet.Conn
-	dc      *transport.TraditionalDnsConn
-	callers map[int]*caller
-	sends   []*send
-	rng     *rand.Rand
-	hold    atomic.Bool // hold the reader's SetReadDeadline(idle)
-	mu      sync.Mutex
-	strayN  int
-	grace   time.Duration
+	sc         *Script
+	rec        *simnet.Recorder
+	conn       *simnet.Conn
+	dc         *transport.TraditionalDnsConn
+	callers    map[int]*caller
+	sends      []*send
+	rng        *rand.Rand
+	hold       atomic.Bool // hold the reader's SetReadDeadline(idle)
+	mu         sync.Mutex
+	strayN     int
+	grace      time.Duration
 	closedByUs bool
 }
 
@@ -362,7 +363,7 @@ func (r *run) doStart(c int) {
 	ctx, cancel := context.WithCancel(context.Background())
 	cl.cancel = cancel
 	cl.done = make(chan outcome, 1)
-	cl.state, cl.wrote, cl.written = "running", false, false
+	cl.state, cl.wrote, cl.written, cl.cancelled = "running", false, false, false
 	rx := cl.rx
 	r.rec.Log("Start", "c", c, "g", cl.g)
 	done := cl.done
@@ -430,6 +431,15 @@ func (r *run) releaseWrite(c int, ok bool) bool {
 	}
 	if !op.Complete(err) {
 		return false
+	}
+	if !ok { // the server never saw these bytes: no reply to this send may be produced
+		g := noteInt(op, "g")
+		for i, s := range r.sends {
+			if s.c == c && s.g == g {
+				r.sends = append(r.sends[:i], r.sends[i+1:]...)
+				break
+			}
+		}
 	}
 	if cl := r.callers[c]; cl != nil && ok {
 		cl.written = true
@@ -528,10 +538,12 @@ func (r *run) extClose() {
 
 func (r *run) cancel(c int) {
 	cl := r.caller(c)
-	r.rec.Log("Cancel", "c", c)
-	if cl.cancel != nil {
-		cl.cancel()
+	if cl.cancelled || cl.cancel == nil {
+		return
 	}
+	cl.cancelled = true
+	r.rec.Log("Cancel", "c", c)
+	cl.cancel()
 }
 
 func errClass(err error) string {
@@ -801,7 +813,7 @@ func (r *run) randomRun() (bool, string) {
 						add(2, func() bool { return r.releaseWrite(c, true) })
 					}
 				}
-				if r.rng.Float64() < cfg.PCancel {
+				if !cl.cancelled && r.rng.Float64() < cfg.PCancel {
 					add(1, func() bool { r.cancel(c); return true })
 				}
 			}
